@@ -155,7 +155,7 @@ class Synth(object):
             self.attr[(kl, a['n'])] = aid
             ty = self.type_id(a['ty']) if a['k'] != 'ref' else self.type_id('same_as<Base_Attribute>')
             self.row('O_ATTR', Attr_ID=aid, Obj_ID=oid, PAttr_ID=prev, Name=a['n'], Descrip='', Prefix='', Root_Nam=a['n'],
-                     Pfx_Mode=0, DT_ID=ty, Dimensions='', DefaultValue='')
+                     Pfx_Mode=0, DT_ID=ty, Dimensions=a.get('dims', ''), DefaultValue='')
             prev = aid
             if a['k'] in ('base', 'derived'):
                 self.row('O_BATTR', Attr_ID=aid, Obj_ID=oid)
@@ -177,7 +177,7 @@ class Synth(object):
             pp = 0
             for p in op.get('params', []):
                 pid = self.id()
-                self.row('O_TPARM', TParm_ID=pid, Tfr_ID=tid, Name=p['n'], DT_ID=self.type_id(p['ty']), By_Ref=0, Dimensions='',
+                self.row('O_TPARM', TParm_ID=pid, Tfr_ID=tid, Name=p['n'], DT_ID=self.type_id(p['ty']), By_Ref=0, Dimensions=p.get('dims', ''),
                          Previous_TParm_ID=pp, Descrip='')
                 pp = pid
 
@@ -295,7 +295,7 @@ class Synth(object):
             prev = 0
             for di in e.get('data', []):
                 did = self.id()
-                self.row('SM_EVTDI', SMedi_ID=did, SM_ID=smid, Name=di['n'], Descrip='', DT_ID=self.type_id(di['ty']), Dimensions='',
+                self.row('SM_EVTDI', SMedi_ID=did, SM_ID=smid, Name=di['n'], Descrip='', DT_ID=self.type_id(di['ty']), Dimensions=di.get('dims', ''),
                          SMevt_ID=eid, Previous_SMedi_ID=prev)
                 prev = did
         first = None
@@ -322,7 +322,7 @@ class Synth(object):
         prev = 0
         for p in f.get('params', []):
             pid = self.id()
-            self.row('S_SPARM', SParm_ID=pid, Sync_ID=sid, Name=p['n'], DT_ID=self.type_id(p['ty']), By_Ref=0, Dimensions='',
+            self.row('S_SPARM', SParm_ID=pid, Sync_ID=sid, Name=p['n'], DT_ID=self.type_id(p['ty']), By_Ref=0, Dimensions=p.get('dims', ''),
                      Previous_SParm_ID=prev, Descrip='')
             prev = pid
 
@@ -338,7 +338,7 @@ class Synth(object):
             prev = 0
             for p in b.get('params', []):
                 pid = self.id()
-                self.row('S_BPARM', BParm_ID=pid, Brg_ID=bid, Name=p['n'], DT_ID=self.type_id(p['ty']), By_Ref=0, Dimensions='',
+                self.row('S_BPARM', BParm_ID=pid, Brg_ID=bid, Name=p['n'], DT_ID=self.type_id(p['ty']), By_Ref=0, Dimensions=p.get('dims', ''),
                          Previous_BParm_ID=prev, Descrip='')
                 prev = pid
 
